@@ -64,6 +64,7 @@ Definition norm_body (b : body N toyC) : body N toyC :=
 Inductive xout :=
 | XInvoked (a : list N) (k : kw N)         (* handler / endpoint invoked, call resolved, progress delivered, error payload *)
 | XFailed (uri : string)                   (* explicit failure with this error URI *)
+| XClass (c : N) (a : list N) (k : kw N)    (* remote error surfaced as an instance of the class registered for its URI *)
 | XIgnored                                 (* event silently ignored *)
 | XNotSent.                                (* the sender raised *)
 
@@ -71,12 +72,14 @@ Inductive leg :=
 | LPublishEvent (a b : option ringspec) (topic : string) (args : list N) (kwargs : kw N) (f : fault)
 | LCallInvocation (a b : option ringspec) (proc : string) (args : list N) (kwargs : kw N) (f : fault)
 | LYieldResult (b a : option ringspec) (proc : string) (inv_encrypted progress : bool) (args : list N) (kwargs : option (kw N)) (f : fault)
-| LError (b a : option ringspec) (error : string) (args : option (list N)) (kwargs : option (kw N)) (f : fault).
+| LError (b a : option ringspec) (error : string) (args : option (list N)) (kwargs : option (kw N)) (f : fault)
+         (caller_defs : list defop) (kinds : list (cls * ckind)).   (* the caller's define() calls and class kinds *)
 
 Definition kw_eqb' := kw_eqb.
 Definition xout_eqb (x y : xout) : bool :=
   match x, y with
   | XInvoked a k, XInvoked a' k' => list_eqb N.eqb a a' && kw_eqb k k'
+  | XClass c a k, XClass c' a' k' => N.eqb c c' && list_eqb N.eqb a a' && kw_eqb k k'
   | XFailed u, XFailed u' => String.eqb u u'
   | XIgnored, XIgnored => true
   | XNotSent, XNotSent => true
@@ -119,14 +122,23 @@ Definition run_leg (l : leg) : bool * xout :=
            | RejectedWith u | ProgressNotDelivered u => XFailed u
            end)
       end
-  | LError b a error args kwargs f =>
+  | LError b a error args kwargs f defs kinds =>
       match error_body N env toyC N toy_seal toy_dumps (codec_of b) error args kwargs 0%N with
       | SendRaises => (false, XNotSent)
       | Sent m =>
+          let reg := snd (define_results (fun _ => true) defs) in
+          let m' := apply_fault f m in
           (is_encrypted m,
-           match on_error_codec N env toyC toy_open toy_loads (codec_of a) (env_uri f error) (apply_fault f m) with
-           | ErrPayload x k => XInvoked (or_nil x) (or_nil k)
+           match on_error_codec N env toyC toy_open toy_loads (codec_of a) (env_uri f error) m' with
            | ErrEnc u => XFailed u
+           | ErrPayload _ _ =>
+               (* the whole _exception_from_message: decrypted payload, then registered class or generic error *)
+               match fst (exception_from_message_codec N env toyC toy_open toy_loads N (fun _ => NOTE) (run_construct kinds) reg
+                            (codec_of a) 48%N 1%N (env_uri f error) m' (fun _ => None)) with
+               | Ok e => if (c_cls e =? CLS_ApplicationError)%N then XInvoked (c_args e) (or_nil (c_kwargs e))
+                         else XClass (c_cls e) (c_args e) (or_nil (c_kwargs e))
+               | Raise _ => XNotSent
+               end
            end)
       end
   end.
